@@ -664,6 +664,9 @@ class ndarray:
         if o is None or isinstance(o, str):
             return True
         return s._binop(o, lambda a, b: a != b, "cmp")
+    def __xor__(s, o): return s._binop(o, _bxor)
+    def __rxor__(s, o): return s._binop(o, _bxor, rev=True)
+    def __ixor__(s, o): return s._inplace(s ^ o)
     def __and__(s, o): return s._binop(o, _band)
     def __rand__(s, o): return s._binop(o, _band, rev=True)
     def __or__(s, o): return s._binop(o, _bor)
@@ -951,6 +954,21 @@ def _apow(a, b):
     return upow(a, b)
 
 
+def _bxor(a, b):
+    if isinstance(a, (bool, SBool)) and isinstance(b, (bool, SBool)):
+        return sor(sand(a, snot(b)), sand(snot(a), b))
+    if isinstance(a, int) and isinstance(b, int):
+        return a ^ b
+    # 0/1 indicator flipped by 1 (the only symbolic use in the repository: LabelBinarizer output ^ 1)
+    if isinstance(b, int) and b == 1 and isinstance(a, SInt):
+        if not bool(sand(a >= 0, a <= 1)):
+            raise Unmodelled("xor of a symbolic integer outside {0, 1}")
+        return 1 - a
+    if isinstance(b, int) and b == 0:
+        return a
+    raise Unmodelled("bitwise xor on symbolic integers")
+
+
 def _band(a, b):
     if isinstance(a, (bool, SBool)) and isinstance(b, (bool, SBool)):
         return sand(a, b)
@@ -987,9 +1005,9 @@ def _nested(x):
         for f, _ in subs:
             flat.extend(f)
         return flat, (len(x),) + sh
-    if hasattr(x, "__iter__") and not isinstance(x, (str, bytes, dict)):
+    if hasattr(x, "__iter__") and not isinstance(x, (str, bytes, dict)) and type(x).__name__ != "SymStr":
         return _nested(list(x))
-    return [x], ()
+    return [x], ()          # scalars; strings (python or symbolic) are array elements, not sequences
 
 
 def array(x, dtype=None, copy=True, ndmin=0):
